@@ -24,6 +24,17 @@ class HippoLLSDBaseFormatter(base_llsd.base.LLSDBaseFormatter):
         self.type_map[Vector3] = self.TUPLECOORD
         self.type_map[Vector4] = self.TUPLECOORD
         self.type_map[Quaternion] = self.TUPLECOORD
+        self.type_map[datetime.datetime] = self._wrap_date(self.type_map[datetime.datetime])
+
+    @staticmethod
+    def _wrap_date(orig_date: callable):
+        # The base date formatter just tacks "Z" onto isoformat(), which is only valid for naive
+        # (implicitly UTC) datetimes. Aware ones, like our binary parser returns, need converting.
+        def _date(v):
+            if isinstance(v, datetime.datetime) and v.tzinfo is not None:
+                v = v.astimezone(datetime.timezone.utc).replace(tzinfo=None)
+            return orig_date(v)
+        return _date
 
     def TUPLECOORD(self, v: TupleCoord):
         return self.ARRAY(v.data())
